@@ -542,7 +542,12 @@ func codecPrograms(ctx *core.Ctx) []*dsl.Program {
 	var lePairs [][]dsl.OptDeviation
 	for _, n := range dsl.OptionNames {
 		if n != "LittleEndian" {
-			lePairs = append(lePairs, []dsl.OptDeviation{{Name: "LittleEndian", Value: "true"}, {Name: n, Value: dsl.OptionValues[n][1]}})
+			vs := dsl.OptionValues[n]
+			lePairs = append(lePairs, []dsl.OptDeviation{{Name: "LittleEndian", Value: "true"}, {Name: n, Value: vs[1]}})
+			if len(vs) > 2 {
+				// ... and the last documented value (the widest prefix)
+				lePairs = append(lePairs, []dsl.OptDeviation{{Name: "LittleEndian", Value: "true"}, {Name: n, Value: vs[len(vs)-1]}})
+			}
 		}
 	}
 	for _, p := range dsl.P1() {
